@@ -146,6 +146,7 @@ def run_deep(concepts, tier, seed):
 
 def cases(tier, seed, spec):
     yield {'deep_relation': True, 'fam': 'DEEP'}
+    yield from gen.hash_twins(seed, 6 if tier == 'quick' else 60)
     yield from gen.ctx_stream(tier, seed, with_wide=False, scale=.6 if tier == 'quick' else .4)
 
 
@@ -178,6 +179,19 @@ def run_case(concepts, case, spec):
         raise
     except Exception as e:
         COL.count('observation_raised_not_judged_here')
+        # ... unless the same table with its rows and columns permuted can be observed: then the outcome
+        # depends on the arrangement, which is what this property excludes
+        try:
+            pc, moved = permute(case, rng, True, True)
+            c2 = common.build_or_skip(concepts, pc)
+            if c2 is not None and moved:
+                observe(c2, '', limit * 2)
+                COL.violation('permutation', 'permutation:observation-raises-for-one-arrangement-only',
+                              'the same outcome for every arrangement of rows and columns', repr(e)[:300])
+        except core.CaseTooLarge:
+            raise
+        except Exception:
+            pass
         return
     for g in ('fcbo', 'fcbo_dual'):
         if len(base[g]) != len(set(base[g])) or set(base[g]) != base['concepts']:
